@@ -315,9 +315,17 @@ def c34(ck, F, tier):
         "Static decision by finite-domain path interpretation of next_state over its four inputs: it is a bijection forming "
         "one 4-cycle (F,F)->(T,T)->(F,T)->(T,F); and by provenance of every append to cycle_endpoint's result: only the "
         "constant '$', the column slice mapped through to_ascii_uppercase, and the row slice - so only $ markers and letter "
-        "case can change. Span arithmetic of the token rewriting is not decided (panic sites are under C11).")
+        "case can change; (PANIC) every index and slice of the rewriting functions is inside the text, by the zone engine "
+        "(including k + p < len for p = iter().skip(k).position(..)).")
     ck.rule("TABLE-cycle", "next_state is a 4-cycle; cycle_endpoint output built from '$', upper-cased column, row", floor=10, exhaustive=True)
     guarded(ck, rn.table_cycle, F)
+    # span arithmetic of the token rewriting: every index / slice of cycle_reference, cycle_token_text and cycle_endpoint stays
+    # inside the text (zone engine; a span that overshoots cuts the reference in the wrong place before it panics)
+    import rules_panic as pn
+    ck.rule("PANIC", "indices and slices of the F4 rewriting stay inside the token text", floor=15)
+    exc = {k: v for k, v in pn.C11_EXCEPTIONS.items() if "::cycle_" in k[0]}
+    guarded(ck, pn.panic_rule, F, "PANIC", ["lexer::util::cycle_reference", "model::Model::cycle_reference"],
+            ["lexer::util::get_tokens_with_locale", "lexer::util::get_tokens"], exc)
 
 
 def c22(ck, F, tier):
